@@ -45,6 +45,14 @@ CLAIMED = {
   text='Coq theorems (Props/C08.v) over the operation trace of saving a checkpoint (mkdir, open-truncate .active, write+flush per line, buffered separators, close, rename) for any package: after any prefix of k operations short of the rename the final name does not exist; a checkpoint that exists after a crash is the complete stream; re-running from any crash state yields the complete checkpoint; the temporary name differs from the final one because the regenerated ACTIVE_SUFFIX is non-empty. Tie: the real operation sequence is recorded from the unchanged stream module (open/os wrapped in its namespace in a child process) and compared with the model; fault enumeration kills a child before every single file operation and raises at every row and at exhaustion, then inspects the directory and re-runs.',
   note='Partial: rename atomicity and durability of flushed data across a process kill are OS facts (trusted); power loss out of scope. Kill points are exhaustive per package shape (0-3 resources, 0-5 rows quick; up to 120 rows thorough).',
   technique='Coq proof over file-operation traces + operation-trace correspondence + exhaustive kill/fault enumeration on the real code', ref='5/C08'),
+ 'C19': dict(
+  text='Coq theorem (Props/C19.v) over the file-operation trace of dump_to_path for any number of resources with data files of any size written and copied in chunks: after a kill following any number k of operations into a fresh directory, if datapackage.json exists at all (complete or not) every data file it lists exists with its complete content; a copy in progress only ever holds a prefix. Tie: the real operation sequence of the unchanged dumper (tempfile/shutil.copy/os wrapped in its modules\' namespaces inside a forked child, copies chunked) is compared with the model\'s phase structure, and a child is killed before every single operation; the property oracle (parse the descriptor, check existence, size and md5 of every listed file) is evaluated on each resulting directory; every proper prefix of each real descriptor is checked to be unparseable.',
+  note='Partial: durability of written data across a process kill and the directory semantics are OS facts; kill points are exhaustive per generated case (1-3 resources, CSV/JSON); the model treats temp-file writes as having no effect on the output directory.',
+  technique='Coq proof over file-operation traces + trace correspondence + exhaustive kill enumeration on the real code', ref='5/C19'),
+ 'C09': dict(
+  text='Coq theorems (Props/C09.v) over the dump model: the byte string that is counted and hashed is the one left at the recorded path (size and H(data) for any hash function H), package totals are the sums over resources, equal data gives equal hashes, dotted counter names set/get/increment the addressed nested attribute. Direct oracle on real dumps (csv/json x path/zip x counters renamed/nested/disabled x add_filehash_to_path x pretty_descriptor, each dumped twice): size, md5 and data-row count recomputed from the bytes on disk or in the zip; stats of process() compared with the written descriptor. Correspondence: totals and dotted-counter arithmetic evaluated by vm_compute against the observed descriptor.',
+  note='Trusted: harness recomputation of size/md5/rows; md5 is a parameter. Known finding: stats bytes include the size of datapackage.json. The fix: commits for add_filehash_to_path and the per-resource row count are recorded in known_findings.json as fixed.',
+  technique='Coq proof over dump model + vm_compute correspondence + direct oracle on bytes on disk', ref='5/C09'),
 }
 
 NOT_YET = 'check not built yet (work in progress; will be claimed once its Coq model, theorems and correspondence check exist)'
